@@ -71,9 +71,41 @@ def _reset_cached_tables():
     APPLIED.append("AlphabetEncoding lookup tables re-initialised under the symbolic backend")
 
 
+def _convert_cached_arrays():
+    """module-level / class-level lookup tables built at import time under real NumPy become SymArrays
+    (a real ndarray indexed by a SymArray would hand the index over to NumPy C code)"""
+    import sys
+    import inspect
+    from .arrays import wrap_real
+    from bionumpy.encoded_array import EncodedArray
+    n = 0
+
+    def conv(owner, name, v):
+        nonlocal n
+        if isinstance(v, EncodedArray) and isinstance(v.data, _np.ndarray) and v.data.dtype.kind in "iub":
+            v.data = wrap_real(_np.asarray(v.data).view(_np.ndarray))
+            n += 1
+        elif type(v) is _np.ndarray and v.dtype.kind in "iub" and v.size <= 4096:
+            try:
+                setattr(owner, name, wrap_real(v))
+                n += 1
+            except Exception:
+                pass
+    for mname, mod in list(sys.modules.items()):
+        if not mname.startswith("bionumpy") or mod is None:
+            continue
+        for name, v in list(vars(mod).items()):
+            conv(mod, name, v)
+            if inspect.isclass(v) and getattr(v, "__module__", "") == mname:
+                for cname, cv in list(vars(v).items()):
+                    conv(v, cname, cv)
+    APPLIED.append(f"import-time lookup tables (module/class attributes) converted to SymArray ({n} tables)")
+
+
 def apply():
     if APPLIED:
         return
+    _convert_cached_arrays()
     _concretize_shapes()
     _message_formatting()
     _npsarray()
